@@ -96,6 +96,33 @@ def oracle_marked(cells, cli, default):
     return default
 
 
+def oracle_effective(ls, cli):
+    """Expected accessor values for one run from its seven levels (docs/config.md)."""
+    def marked(name, default, override):
+        if override is not None:
+            return override
+        vals = [l.get(name) for l in ls]
+        for v in reversed(vals):
+            if isinstance(v, str) and v.endswith("!"):
+                return int(v[:-1])
+        for v in reversed(vals):
+            if v is not None:
+                return int(v)
+        return default
+    def plain(name, default):
+        for l in reversed(ls):
+            if name in l:
+                return l[name]
+        return default
+    one = 1 if cli["quick"] or cli["setup"] else None
+    return dict(invocations=marked("invocations", 1, one if one else cli["inv"]),
+                iterations=marked("iterations", 1, one if one else cli["it"]),
+                warmup=marked("warmup", None, None),
+                min_iteration_time=plain("min_iteration_time", 50), max_invocation_time=plain("max_invocation_time", -1),
+                ignore_timeouts=plain("ignore_timeouts", None), execute_exclusively=plain("execute_exclusively", True),
+                retries_after_failure=plain("retries_after_failure", 0), env=plain("env", {}))
+
+
 def coq_cli(inv=None, it=None, quick=False, setup=False):
     return "{| cli_in := %s; cli_it := %s; cli_quick := %s; cli_setup_only := %s |}" % (
         coq_opt(coq_Z(inv) if inv is not None else None), coq_opt(coq_Z(it) if it is not None else None),
@@ -309,6 +336,10 @@ def run(chk):
             b = run_.benchmark.name
             ls = [machine, runs_l, exp_l, exec_entries[e], execs[e], suites[s], benches[(s, b)]]
             rnd_cases.append((canon_obs(obs_run(run_)), dict(levels=ls, cli=cli)))
+            want = oracle_effective(ls, cli)
+            if obs_run(run_) != want:
+                chk.violation("C02 effective settings of a run (random configuration)",
+                              dict(config=raw, argv=argv, run=[e, s, b]), want, obs_run(run_))
             exprs.append("run_effective %s %s" % (coq_cli(**cli), coq_list([coq_lvl(x) for x in ls])))
             meta.append(("random", len(rnd_cases) - 1, None))
             chk.case(("r", i, e, s, b), sample=dict(argv=argv, levels=dict(zip(LEVELS, ls)),
